@@ -99,7 +99,8 @@ def gen_history(rnd, g, kind="", pinned=None):
     if base is None and rnd.random() < 0.25:
         # values of every built-in state type (what serialising caches have to round-trip)
         base = rnd.choice(["mk-tuple-3/ident", "mk-pairs-2/ident", "mk-set-2/ident", "mk-df-2/ident", "mk-bytes-3/ident",
-                           "mk-nested/ident", "mk-none/ident", "mk-float-3/ident", "mk-text-2/ident", "mk-dict-2/ident"])
+                           "mk-nested/ident", "mk-none/ident", "mk-float-3/ident", "mk-text-2/ident", "mk-dict-2/ident",
+                           "mk-udict-2/ident", "mk-udict-1/setkey-beta-v"])
         base += "/" + g.query(0, first=False, max_len=2)
     if base is None and rnd.random() < 0.08:
         # state variables holding values of every kind (they travel in the caches' metadata)
